@@ -255,7 +255,7 @@ func c11View(v *c11Val, kind string, i, j int, prov string) *c11Val {
 
 var c11Ops = []string{"list", "vector", "literal", "sorted-map", "to-bytes", "alias",
 	"slice-list", "slice-vector", "cdr", "rest", "slice-bytes",
-	"append-list", "append-vector", "append-vector-zero", "append-bytes", "concat-list", "concat-vector", "cons", "reverse", "map", "select", "reject", "zip", "insert-index", "insert-sorted",
+	"append-list", "append-vector", "append-vector-zero", "append-list-zero", "concat-one", "append-bytes", "concat-list", "concat-vector", "cons", "reverse", "map", "select", "reject", "zip", "insert-index", "insert-sorted",
 	"assoc", "dissoc", "keys", "nest-list", "nest-map", "get", "elem", "elem", "insert-index-elem", "insert-sorted-elem", "cons-elem", "append-elem",
 	"append!", "append!-bind", "append-bytes!", "assoc!", "dissoc!", "stable-sort", "stable-sort-bind", "stable-sort-view-inline", "append!-view-inline", "append!-append-result-inline"}
 
@@ -345,18 +345,27 @@ func c11Step(r *fw.RNG, h *c11Heap) (src, opname, sig string) {
 		i := r.Range(0, len(v.by))
 		j := r.Range(i, len(v.by))
 		return setq(&c11Val{kind: "bytes", by: append([]byte(nil), v.by[i:j]...), prov: "bytes-view"}, fmt.Sprintf("(slice 'bytes %s %d %d)", n, i, j)), op, op
-	case "append-list", "append-vector", "append-vector-zero":
+	case "concat-one":
+		// concat with nothing to add: one operand, or empty operands around it
+		n, v := h.pick(r, c11IsSeq)
+		if v == nil {
+			return "", "", ""
+		}
+		kind := fw.Pick(r, []string{"list", "vector"})
+		form := fw.Pick(r, []string{"(concat '%s %s)", "(concat '%s %s ())", "(concat '%s () %s)", "(concat '%s (vector) %s (list))"})
+		return setq(c11Seq(kind, c11CopyCells(v.elems()), "fresh"), fmt.Sprintf(form, kind, n)), op, op + "|" + v.kind + "|" + kind + "|" + v.prov
+	case "append-list", "append-vector", "append-vector-zero", "append-list-zero":
 		n, v := h.pick(r, c11IsSeq)
 		if v == nil {
 			return "", "", ""
 		}
 		k := r.Range(1, 3)
-		if op == "append-vector-zero" {
+		if op == "append-vector-zero" || op == "append-list-zero" {
 			k = 0
 		}
 		cs, txt := ints(k)
 		kind := "vector"
-		if op == "append-list" {
+		if op == "append-list" || op == "append-list-zero" {
 			kind = "list"
 		}
 		nv := c11Seq(kind, append(c11CopyCells(v.elems()), cs...), "append-result")
